@@ -111,7 +111,8 @@ Section Field.
         rewrite size_dict in Hs. pose proof (in_sum_size_d k y d Hy). lia. }
       clear Hv Hg Hs He Hx Hxn. induction d as [|[k y] d IH]; [reflexivity|].
       cbn [map fst snd].
-      rewrite (serialize_with_congr _ 2 vt _ _ false None (E (k, y) (or_introl eq_refl))).
+      pose proof (E (k, y) (or_introl eq_refl)) as E0. cbn [snd] in E0.
+      rewrite (serialize_with_congr _ 2 vt _ _ false None E0).
       rewrite IH; [reflexivity|]. intros ky Hky. apply E. right. exact Hky.
   Qed.
 End Field.
